@@ -13,14 +13,6 @@ namespace PyYetiVerif.C11
 open PyYetiVerif.Op4 (Endian)
 open PyYetiVerif.Op2 PyYetiVerif.Op2R PyYetiVerif.Op2RF
 
-def okOf' {α} : M α → Option α
-  | .ok a => some a
-  | .error _ => none
-
-def errOf' {α} : M α → Option Err
-  | .ok _ => none
-  | .error e => some e
-
 /-- **rdRecord_form_consistent.**  On an encoded table record — any split into pieces, either key width, either
 byte order, any cut-off — every numeric form `f` whose item width divides the byte length of every piece
 (always true for 'int' / 'uint'; 'single' needs nothing more with 64-bit keys; 'double' in a 32-bit file needs
@@ -28,18 +20,11 @@ an even number of keys per piece: otherwise `reclen // bytes_per` drops the odd 
 misaligned) returns the payload bytes cut into items of `bytes_per` bytes (`reinterp`), the `bytes` form returns
 the payload bytes themselves, all leave exactly `rest`; and the integer reading of the key-wide items is the
 list of keys the default form returns (`Op2R.rdRecord`, theorem `op2_skip_record`).  So all forms decode the
-same byte string, reinterpreted.
-
-`_partial`: the hypothesis `SmallItems` excludes exactly the family of finding
-`op2-rdop2record-uint-i64-struct-format-stays-signed` — form 'uint' in a file with 64-bit keys and a key with its
-top bit set: there the struct format stays signed (`"%dq"`), the read raises OverflowError below the cut-off and
-succeeds from the cut-off on (`uint64_struct_path_counterexample`: the hypothesis is necessary).  For every other
-form / key width `SmallItems` holds vacuously (`smallItems_trivial`): the full statement
-`rdRecord_form_consistent` (no `SmallItems`) is what holds for them. -/
-theorem rdRecord_form_consistent_partial (v : V2) (cut : Int) (f : Form) (neg : Int) (hneg : neg < 0) (hnk : InKey v neg)
+same byte string, reinterpreted.  (Form 'uint' with 64-bit keys is included at full strength since the repair of
+finding F50, pyYeti b194dbc: before it the struct path unpacked signed and raised on a key with its top bit set.) -/
+theorem rdRecord_form_consistent (v : V2) (cut : Int) (f : Form) (neg : Int) (hneg : neg < 0) (hnk : InKey v neg)
     (rest : List Nat) (pieces : List (List Int)) (hok : ∀ p ∈ pieces, PieceOk v p)
-    (hw : ∀ p ∈ pieces, f.width v ∣ p.length * kb v)
-    (hsm : SmallItems v (f.width v) (signedUint v f) pieces) :
+    (hw : ∀ p ∈ pieces, f.width v ∣ p.length * kb v) :
     rdRecordF v cut f 0 (pieces.flatMap (encPiece v) ++ (K v neg ++ (K v 1 ++ (K v 0 ++ rest))))
         = .ok (some (if f = .bytes then payload v pieces else reinterp v.e (f.width v) (payload v pieces)), rest) ∧
       rdRecord v (pieces.flatMap (encPiece v) ++ (K v neg ++ (K v 1 ++ (K v 0 ++ rest))))
@@ -59,8 +44,8 @@ theorem rdRecord_form_consistent_partial (v : V2) (cut : Int) (f : Form) (neg : 
       rw [hg] at this
       simp only at this
       simp only [this, List.nil_append, skipKey_K2r, if_true]
-    · have := rdPiecesFrom_enc v cut (f.width v) (signedUint v f) hwpos neg hneg hnk (K v 1 ++ (K v 0 ++ rest)) pieces []
-        (s1.length + 1) (fun p hp => ⟨hok p hp, hw p hp⟩) hsm (by omega)
+    · have := rdPiecesFrom_enc v cut (f.width v) hwpos neg hneg hnk (K v 1 ++ (K v 0 ++ rest)) pieces []
+        (s1.length + 1) (fun p hp => ⟨hok p hp, hw p hp⟩) (by omega)
       unfold rdPiecesFrom at this
       rw [hg] at this
       simp only at this
@@ -75,61 +60,24 @@ theorem rdRecord_form_consistent_partial (v : V2) (cut : Int) (f : Form) (neg : 
       obtain ⟨p, hp, hxp⟩ := List.mem_flatten.1 hx
       exact (hok p hp).keys x hxp)).symm
 
-/-- `SmallItems` is vacuous except for form 'uint' with 64-bit keys; there it says that every key is non-negative -/
-theorem smallItems_trivial (v : V2) (f : Form) (pieces : List (List Int)) (h : f ≠ .uint ∨ v.bit64 = false) :
-    SmallItems v (f.width v) (signedUint v f) pieces := by
-  intro hc
-  unfold signedUint at hc
-  rcases h with h | h
-  · cases f <;> simp_all
-  · simp [h] at hc
-
-/-- **rdRecord_form_consistent**, full strength for every form and key width outside the finding's family
-(everything except form 'uint' with 64-bit keys) -/
-theorem rdRecord_form_consistent (v : V2) (cut : Int) (f : Form) (hnf : f ≠ .uint ∨ v.bit64 = false) (neg : Int)
-    (hneg : neg < 0) (hnk : InKey v neg) (rest : List Nat) (pieces : List (List Int)) (hok : ∀ p ∈ pieces, PieceOk v p)
-    (hw : ∀ p ∈ pieces, f.width v ∣ p.length * kb v) :
-    rdRecordF v cut f 0 (pieces.flatMap (encPiece v) ++ (K v neg ++ (K v 1 ++ (K v 0 ++ rest))))
-        = .ok (some (if f = .bytes then payload v pieces else reinterp v.e (f.width v) (payload v pieces)), rest) ∧
-      rdRecord v (pieces.flatMap (encPiece v) ++ (K v neg ++ (K v 1 ++ (K v 0 ++ rest))))
-        = .ok (some ((reinterp v.e (kb v) (payload v pieces)).map (asInt (kb v))), rest) :=
-  rdRecord_form_consistent_partial v cut f neg hneg hnk rest pieces hok hw (smallItems_trivial v f pieces hnf)
-
-/-- **the excluded family is a genuine defect of `rdop2record(form='uint')`** (the hypothesis `SmallItems` is
-necessary, and the result depends on `_rowsCutoff`): a 64-bit little-endian record holding the keys 5, −1, 7 read
-with form 'uint' raises below the cut-off (here `Err.exotic` = OverflowError: the items were unpacked with the
-signed format `"%dq"`), and returns 5, 2⁶⁴−1, 7 from the cut-off on; form 'int' returns the keys. -/
-theorem uint64_struct_path_counterexample :
-    let v : V2 := ⟨.little, true⟩
-    let s := [[5, -1, 7]].flatMap (encPiece v) ++ (K v (-4) ++ (K v 1 ++ (K v 0 ++ [])))
-    errOf' (rdRecordF v 3000 .uint 0 s) = some .exotic ∧
-      okOf' (rdRecordF v 0 .uint 0 s) = some (some [5, 18446744073709551615, 7], []) ∧
-      okOf' (rdRecordF v 3000 .int 0 s) = some (some [5, 18446744073709551615, 7], []) ∧
-      ¬ SmallItems v (Form.uint.width v) (signedUint v .uint) [[5, -1, 7]] := by
-  refine ⟨by decide +kernel, by decide +kernel, by decide +kernel, ?_⟩
-  intro h
-  have := h rfl [5, -1, 7] (by simp) 18446744073709551615 (by decide +kernel)
-  omega
-
 /-- **N is only a size hint**: with `N` equal to the number of items of the record, `rdop2record(form, N)`
 returns exactly what `rdop2record(form)` returns (the items are written into `np.empty(N)` piece by piece and
 fill it).  (With a smaller `N` numpy raises ValueError, or silently drops a final one-item piece; with a larger
 `N` the tail of the array is uninitialised memory — `Err.exotic` in the model.) -/
 theorem rdRecord_N_irrelevant (v : V2) (cut : Int) (f : Form) (hf : f ≠ .bytes) (neg : Int) (hneg : neg < 0)
     (hnk : InKey v neg) (rest : List Nat) (pieces : List (List Int)) (hok : ∀ p ∈ pieces, PieceOk v p)
-    (hw : ∀ p ∈ pieces, f.width v ∣ p.length * kb v)
-    (hsm : SmallItems v (f.width v) (signedUint v f) pieces) (N : Nat)
+    (hw : ∀ p ∈ pieces, f.width v ∣ p.length * kb v) (N : Nat)
     (hN : N = (reinterp v.e (f.width v) (payload v pieces)).length) (hpos : 0 < N) :
     rdRecordF v cut f N (pieces.flatMap (encPiece v) ++ (K v neg ++ (K v 1 ++ (K v 0 ++ rest))))
       = rdRecordF v cut f 0 (pieces.flatMap (encPiece v) ++ (K v neg ++ (K v 1 ++ (K v 0 ++ rest)))) := by
-  rw [(rdRecord_form_consistent_partial v cut f neg hneg hnk rest pieces hok hw hsm).1, if_neg hf]
+  rw [(rdRecord_form_consistent v cut f neg hneg hnk rest pieces hok hw).1, if_neg hf]
   obtain ⟨key, s1, hg, _, hl, hk⟩ := firstKey_pieces v neg hneg hnk (K v 1 ++ (K v 0 ++ rest)) pieces hok
   have hwpos : 0 < f.width v := by
     have := kb_pos v
     cases f <;> simp [Form.width] <;> omega
   have hfl := flatMap_reinterp v (f.width v) hwpos pieces hw
-  have := rdPiecesNFrom_enc v cut (f.width v) (signedUint v f) hwpos neg hneg hnk (K v 1 ++ (K v 0 ++ rest)) pieces [] N
-    (s1.length + 1) (fun p hp => ⟨hok p hp, hw p hp⟩) hsm (by omega) (by rw [hfl]; exact hN)
+  have := rdPiecesNFrom_enc v cut (f.width v) hwpos neg hneg hnk (K v 1 ++ (K v 0 ++ rest)) pieces [] N
+    (s1.length + 1) (fun p hp => ⟨hok p hp, hw p hp⟩) (by omega) (by rw [hfl]; exact hN)
   unfold rdPiecesNFrom at this
   rw [hg] at this
   simp only [List.nil_append, List.length_nil, Int.natCast_zero, Nat.zero_add] at this
@@ -167,8 +115,13 @@ def exRec : List Nat := exPieces.flatMap (encPiece exV32) ++ (K exV32 (-4) ++ (K
 example : (∀ p ∈ exPieces, PieceOk exV32 p) ∧ (∀ p ∈ exPieces, Form.single.width exV32 ∣ p.length * kb exV32) ∧
     ¬ (∀ p ∈ exPieces, Form.double.width exV32 ∣ p.length * kb exV32) := by decide
 
-abbrev okOf {α} := @okOf' α
-abbrev errOf {α} := @errOf' α
+def okOf {α} : M α → Option α
+  | .ok a => some a
+  | .error _ => none
+
+def errOf {α} : M α → Option Err
+  | .ok _ => none
+  | .error e => some e
 
 example : okOf (rdRecordF exV32 3000 .uint 0 exRec) = some (some [1, 4294967294, 3, 4, 5, 4294967290], [7, 7]) ∧
     okOf (rdRecordF exV32 0 .int 6 exRec) = some (some [1, 4294967294, 3, 4, 5, 4294967290], [7, 7]) ∧
@@ -185,6 +138,15 @@ example : errOf (rdRecordF exV32 3000 .int 4 exRec) = some .value ∧
 closing marker (8) as third key, the 1-key piece its closing marker and the opening marker of the next key record -/
 example : okOf (rdTabHeaders exV32 (encTabRecs exV32 0 [exPieces] ++ (K exV32 0 ++ [7, 7])))
     = some ([([1, -2, 3], 12), ([4, 5, 8], 8), ([-6, 4, 4], 4)], [7, 7]) ∧ TabOk exV32 0 [exPieces] := by
+  decide +kernel
+
+/-- the input of the repaired finding F50: a 64-bit record holding 5, −1, 7 read with form 'uint' gives
+5, 2⁶⁴−1, 7 on BOTH sides of the cut-off -/
+example :
+    let v : V2 := ⟨.little, true⟩
+    let s := [[5, -1, 7]].flatMap (encPiece v) ++ (K v (-4) ++ (K v 1 ++ (K v 0 ++ [])))
+    okOf (rdRecordF v 3000 .uint 0 s) = some (some [5, 18446744073709551615, 7], []) ∧
+      okOf (rdRecordF v 0 .uint 0 s) = some (some [5, 18446744073709551615, 7], []) := by
   decide +kernel
 
 end PyYetiVerif.C11
